@@ -80,6 +80,7 @@ pub fn compare_state(g: &G, m: &Model, ctx: &str, out: &mut Outcome) {
 /// Runs the constructor form; returns (model, graph) to continue with.
 pub fn run_ctor(case: &HistCase, out: &mut Outcome) -> Option<(Model, G)> {
     set_universe(case.universe);
+    reset_edge_pool();
     let spec = SpecBits::from_index(case.spec);
     let mut m = Model::new(spec);
     match &case.ctor {
